@@ -38,6 +38,7 @@ func ScanRepositoryUsingGraph(
 	progressMeter meter.Progress,
 ) (HistorySize, error) {
 	graph := NewGraph(nameStyle)
+	verifRoots(graph, roots)
 
 	objIter, err := repo.NewObjectIter(ctx)
 	if err != nil {
@@ -239,6 +240,7 @@ func ScanRepositoryUsingGraph(
 		for _, commit := range commits {
 			progressMeter.Inc()
 			graph.pathResolver.RecordCommit(commit.oid, commit.tree)
+			verifMatch(graph, commit.oid, commit.tree)
 		}
 		progressMeter.Done()
 	}
@@ -279,8 +281,10 @@ func ScanRepositoryUsingGraph(
 		if root.Walk() {
 			graph.pathResolver.RecordName(root.Name(), root.OID())
 		}
+		verifRoot(graph, root)
 	}
 	progressMeter.Done()
+	verifDone(graph)
 
 	return graph.HistorySize(), nil
 }
@@ -306,6 +310,8 @@ type Graph struct {
 	historySize HistorySize
 
 	pathResolver PathResolver
+
+	verif verifGraphState
 }
 
 // NewGraph creates and returns a new `*Graph` instance.
@@ -375,6 +381,7 @@ func (g *Graph) RegisterBlob(oid git.OID, objectSize counts.Count32) {
 	g.historyLock.Lock()
 	g.historySize.recordBlob(g, oid, size)
 	g.historyLock.Unlock()
+	verifEvent(g, "Blob", oid)
 }
 
 // The `Require*Size` functions behave as follows:
@@ -430,6 +437,7 @@ func (g *Graph) GetTreeSize(oid git.OID) TreeSize {
 
 // Record that the specified `oid` is the specified `tree`.
 func (g *Graph) RegisterTree(oid git.OID, tree *git.Tree) error {
+	defer verifEvent(g, "Tree", oid)
 	g.treeLock.Lock()
 
 	if _, ok := g.treeSizes[oid]; ok {
@@ -460,6 +468,7 @@ func (g *Graph) finalizeTreeSize(
 	g.historyLock.Lock()
 	g.historySize.recordTree(g, oid, size, objectSize, treeEntries)
 	g.historyLock.Unlock()
+	verifTreeFinal(g, oid, size, objectSize, treeEntries)
 }
 
 type treeRecord struct {
@@ -629,6 +638,7 @@ func (g *Graph) RegisterCommit(oid git.OID, commit *git.Commit) {
 	g.historyLock.Lock()
 	g.historySize.recordCommit(g, oid, size, commit.Size, parentCount)
 	g.historyLock.Unlock()
+	verifEvent(g, "Commit", oid)
 }
 
 func (g *Graph) RequireTagSize(oid git.OID, listener func(TagSize)) (TagSize, bool) {
@@ -655,6 +665,7 @@ func (g *Graph) RequireTagSize(oid git.OID, listener func(TagSize)) (TagSize, bo
 
 // Record that the specified `oid` is the specified `tag`.
 func (g *Graph) RegisterTag(oid git.OID, tag *git.Tag) {
+	defer verifEvent(g, "Tag", oid)
 	g.tagLock.Lock()
 
 	if _, ok := g.tagSizes[oid]; ok {
@@ -683,6 +694,7 @@ func (g *Graph) finalizeTagSize(oid git.OID, size TagSize, objectSize counts.Cou
 	g.historyLock.Lock()
 	g.historySize.recordTag(g, oid, size, objectSize)
 	g.historyLock.Unlock()
+	verifTagFinal(g, oid, size)
 }
 
 type tagRecord struct {
